@@ -59,6 +59,8 @@ def run_one(text_body, transpile, debug, sym, outcomes):
             ins.imm = Immediate(sym[ins.imm.value - 77770])
     n_orig = len(sub.instructions)
     if transpile:
+        # another subroutine was transpiled earlier in the same process, by its own transpiler object (nothing may carry over)
+        NVSubroutineTranspiler(parse_text_subroutine(HDR + "set Q0 1\nset Q1 0\nset Q2 2\ncnot Q0 Q1\ncphase Q2 Q1\n"), debug=False).transpile()
         sub = NVSubroutineTranspiler(sub, debug=debug).transpile()
     fault = None
     try:
